@@ -607,7 +607,7 @@ func streamGenerator(r *hx.Rng, cfs []*cfile, bs *builtSet, bindir, genRoot stri
 				pm = "1"
 			}
 			if e1 == "" {
-				sink.Add("names", fmt.Sprintf("G NM@%s %s %s/%s %s", v.Name(), pm, f.Base, f.Base, f.Forest()), impl, true)
+				sink.Add("names", fmt.Sprintf("G NM@%s %s %s/%s %s", v.Name(), pm, f.Dir(), f.Base, f.Forest()), impl, true)
 			}
 			sink.Count("generated:" + v.Name())
 		}
